@@ -90,6 +90,7 @@ M = [
     ('var-squares-in-own-dtype', 'streamz/dataframe/aggregations.py', "    return (x.astype('float64') ** 2).sum()", "    return (x ** 2).sum()", ['C06', 'C07']),
     ('from-iterable-takes-item-before-looking', 'streamz/sources.py', "        while not self.stopped:\n            try:\n                x = next(iterator)\n            except StopIteration:\n                break\n            await asyncio.gather(*self._emit(x))", "        for x in iterator:\n            if self.stopped:\n                break\n            await asyncio.gather(*self._emit(x))\n            if self.stopped:\n                break", ['C18']),
     ('source-running-flag-not-lowered-on-failure', 'streamz/sources.py', "        try:\n            result = self.run()\n            if isawaitable(result):\n                await result\n        finally:\n            self._running = False", "        result = self.run()\n        if isawaitable(result):\n            await result\n        self._running = False", ['C18']),
+    ('collect-flush-awaitable-only-on-own-loop', 'streamz/core.py', "            try:\n                asyncio.get_running_loop()\n            except RuntimeError:\n                return\n", "            try:\n                if asyncio.get_running_loop() is not getattr(self.loop, 'asyncio_loop', None):\n                    return\n            except RuntimeError:\n                return\n", ['C05']),
 ]
 
 
